@@ -322,7 +322,7 @@ bool FileManager::readStream(std::istream &_istream, MeshT &_mesh,
         }
     }
 
-    while(!_istream.eof()) {
+    while(!_istream.eof() && !_istream.fail()) {
         // "End of file reached while searching for input!"
         // is thrown here. \TODO Fix it!
 
